@@ -524,7 +524,7 @@ class Translator:
     def weave_fn(self, c):
         out = ''
         for r in c.get('requires', []):
-            out += '__CPROVER_requires(%s)\n' % r
+            out += '__CPROVER_requires(%s)\n' % (r[1] if isinstance(r, tuple) else r)
         if 'assigns' in c:
             out += '__CPROVER_assigns(%s)\n' % ', '.join(c['assigns'])
         for e in c.get('ensures', []):
@@ -623,6 +623,8 @@ class Translator:
             d = self.run_defers(1)
             if n.get('inner'):
                 e = self.value_expr(n['inner'][0], self.ret_type)
+                if self.ret_type.ref:
+                    e = self.addr(e)
                 if d:
                     self.tmp += 1
                     t = '__ret%d' % self.tmp
@@ -1081,7 +1083,10 @@ class Translator:
                 t = t.replace('$%d' % i, '(%s)' % a)
             return t
         allargs = ([obj] if obj is not None else []) + args
-        return '%s(%s)' % (b, ', '.join(allargs))
+        call = '%s(%s)' % (b, ', '.join(allargs))
+        if self.is_glvalue(n) and n.get('kind') in ('CallExpr', 'CXXMemberCallExpr', 'CXXOperatorCallExpr'):
+            return '(*%s)' % call     # a model of a reference-returning callee returns a pointer
+        return call
 
     def peel(self, n):
         while n.get('kind') in ('ImplicitCastExpr', 'ParenExpr', 'ExprWithCleanups'):
@@ -1102,7 +1107,7 @@ class Translator:
             if d is not None:
                 cn = self.queue(d)
                 pts = [self.ntype(p) for p in self.params_of(d)]
-                return '%s(%s)' % (cn, ', '.join(self.lower_args(argnodes, None, pts)))
+                return self.wrapref(n, '%s(%s)' % (cn, ', '.join(self.lower_args(argnodes, None, pts))))
             ptypes = self.proto_param_types(r.get('type', {}).get('qualType', ''))
             self.externs.setdefault(name, r.get('type', {}).get('qualType', ''))
             return '%s(%s)' % (name, ', '.join(self.lower_args(argnodes, None, ptypes)))
@@ -1110,6 +1115,9 @@ class Translator:
             # call through a function-pointer field
             return '%s(%s)' % (self.expr(callee), ', '.join(self.lower_args(argnodes)))
         raise Unsupported('call through %s' % callee.get('kind'))
+
+    def wrapref(self, n, call):
+        return '(*%s)' % call if self.is_glvalue(n) else call
 
     def proto_param_types(self, fq):
         m = re.match(r'.*?\((.*)\)[^)]*$', fq)
@@ -1139,8 +1147,9 @@ class Translator:
 
     def function_by_name(self, name, r):
         sig = norm(r.get('type', {}).get('qualType', '')).replace(' ', '')
-        cands = [d for d in self.find_function(name) if d['kind'] == 'FunctionDecl' and self.in_repo(d)
-                 and norm(self.qt(d)).replace(' ', '') == sig]
+        cands = [d for d in self.find_function(name)
+                 if (d['kind'] == 'FunctionDecl' or (d['kind'] == 'CXXMethodDecl' and d.get('storageClass') == 'static'))
+                 and self.in_repo(d) and norm(self.qt(d)).replace(' ', '') == sig]
         return cands[0] if len(cands) >= 1 else None
 
     def in_repo(self, d):
@@ -1191,7 +1200,7 @@ class Translator:
             pts = [self.ntype(p) for p in self.params_of(d)]
             cls = self.class_of(d)
             ot = self.ctype(cls).c(1).strip()
-            return '%s(%s)' % (cn, ', '.join(['(%s)%s' % (ot, obj)] + self.lower_args(argnodes, None, pts)))
+            return self.wrapref(n, '%s(%s)' % (cn, ', '.join(['(%s)%s' % (ot, obj)] + self.lower_args(argnodes, None, pts))))
         b = self.lookup_binding(['m:*::%s' % name])
         if b is not None:
             return self.apply_binding(b, n, obj, self.lower_args(argnodes), argnodes)
@@ -1280,8 +1289,8 @@ class Translator:
             pts = [self.ntype(p) for p in self.params_of(d)]
             if d['kind'] == 'CXXMethodDecl':
                 obj = self.addr(self.expr(a0))
-                return '%s(%s)' % (cn, ', '.join([obj] + self.lower_args(argnodes[1:], None, pts)))
-            return '%s(%s)' % (cn, ', '.join(self.lower_args(argnodes, None, pts)))
+                return self.wrapref(n, '%s(%s)' % (cn, ', '.join([obj] + self.lower_args(argnodes[1:], None, pts))))
+            return self.wrapref(n, '%s(%s)' % (cn, ', '.join(self.lower_args(argnodes, None, pts))))
         # plain struct assignment
         if op == '=' and self.ntype(a0).base.startswith('struct '):
             return '(%s = %s)' % (self.expr(a0), self.expr(argnodes[1]))
